@@ -26,12 +26,12 @@ def exec_simplify(spec, env):
     vs = rt.variables_of(spec["d"])
     p = rt.make_point(concrete.coords(spec.get("supplied", vs), env))
     what = spec.get("what", "pass")
-    if spec.get("pre_eval"):
-        # the input was evaluated (and differentiated numerically) at ANOTHER point before it is simplified
-        q = rt.make_point(concrete.coords(spec.get("supplied", vs), env, "q_"))
-        rt.outcome(lambda: e.at(q))
-        rt.outcome(lambda: sm.Partial(e, (vs or ["x"])[0]).at(q))
     outs = [rt.outcome(lambda: e.at(p))]
+    if spec.get("pre_eval"):
+        # the input's LAST evaluation before it is simplified was at ANOTHER point q (its caches hold q-values, possibly of a failed evaluation)
+        q = rt.make_point(concrete.coords(spec.get("supplied", vs), env, "q_"))
+        rt.outcome(lambda: sm.Partial(e, (vs or ["x"])[0]).at(q))
+        rt.outcome(lambda: e.at(q))
     forms = []
     logging.disable(logging.CRITICAL)
     be, old = _steps_bound(spec.get("bound") if what == "giveup" else None)
@@ -401,8 +401,9 @@ def exec_operands(spec, env):
             outs.append(rt.outcome(lambda: a.at(env["p_x"])))      # bare number: accepted iff the object still mentions <= 1 variable
             outs.append(rt.outcome(lambda: b.at(env["p_x"])))
         elif isinstance(a, sm.Differential):
-            outs.append(rt.outcome(lambda: [a.component_at("x", pts["p"]), a.component(E.Variable("y")).at(pts["p"])] + (lambda ld: [ld.component("x")])(a.at(pts["p"]))))
-            outs.append(rt.outcome(lambda: [b.component_at("x", pts["p"]), b.component(E.Variable("y")).at(pts["p"])] + (lambda ld: [ld.component("x")])(b.at(pts["p"]))))
+            # (located first, for every variable: a Differential that remembers single components must still know all of them)
+            outs.append(rt.outcome(lambda: (lambda ld: [ld.component("x"), ld.component("y")])(a.at(pts["p"])) + [a.component_at("x", pts["p"]), a.component(E.Variable("y")).at(pts["p"])]))
+            outs.append(rt.outcome(lambda: (lambda ld: [ld.component("x"), ld.component("y")])(b.at(pts["p"])) + [b.component_at("x", pts["p"]), b.component(E.Variable("y")).at(pts["p"])]))
             outs.append(rt.outcome(lambda: bool(a.component("x").as_expression() == b.component("x").as_expression())))     # the library's own ==
             outs.append({"kind": "value", "value": True})
         elif isinstance(a, (sm.Partial, sm.Derivative)):
